@@ -525,7 +525,7 @@ func (env *Env) coerce(v Val, t types.Type) Val {
 	}
 	_, vm := v.T.(*MathT)
 	_, tm := t.(*MathT)
-	if vm == tm && (vm || types.Identical(v.T.Underlying(), t.Underlying())) {
+	if vm == tm && (vm || identicalT(v.T.Underlying(), t.Underlying())) {
 		return v
 	}
 	if _, ok := numOf(v.T); !ok {
@@ -783,6 +783,10 @@ func (env *Env) evalCall(x *ECall, hint types.Type) Val {
 				return Val{T: types.Typ[types.String], C: []string{vc.strFromBytes(env.st, sl.Elem(), v)}}
 			}
 			efail("string() of %v", v.T)
+		case "streq":
+			a := env.eval(x.Args[0], nil)
+			b := env.eval(x.Args[1], nil)
+			return Val{T: boolT, C: []string{vc.strEqExt(a.C[0], b.C[0])}}
 		case "bits":
 			// bits(f): bit pattern of a float as unsigned int of the same width
 			v := env.eval(x.Args[0], nil)
@@ -841,7 +845,7 @@ func (env *Env) convertTo(arg Expr, t types.Type) Val {
 			return Val{T: t, C: []string{vc.convertNum(v.C[0], v.T, t)}}
 		}
 	}
-	if types.Identical(v.T.Underlying(), t.Underlying()) {
+	if identicalT(v.T.Underlying(), t.Underlying()) {
 		return Val{T: t, C: v.C, Addr: v.Addr}
 	}
 	efail("unsupported conversion %v -> %v", v.T, t)
@@ -853,9 +857,18 @@ func (env *Env) callSpec(sf *SpecFn, args []Expr) Val {
 	if len(args) != len(sf.Params) {
 		efail("spec fn %s expects %d args", sf.Name, len(sf.Params))
 	}
-	name := vc.declareSpecFn(sf)
 	pkg := vc.prog.typesPkgByName(sf.Pkg)
 	senv := &Env{vc: vc, pkg: pkg}
+	if sf.Pred {
+		benv := &Env{vc: vc, st: env.st, old: env.old, entry: env.entry, vars: map[string]Val{}, pkg: pkg}
+		for i, p := range sf.Params {
+			pt := senv.resolveType(p.Type)
+			v := env.eval(args[i], pt)
+			benv.vars[p.Name] = env.coerce(v, pt)
+		}
+		return benv.eval(sf.Body, senv.resolveType(sf.Result))
+	}
+	name := vc.declareSpecFn(sf)
 	var actual []string
 	for i, p := range sf.Params {
 		pt := senv.resolveType(p.Type)
@@ -966,4 +979,10 @@ func (vc *VC) strFromBytes(st *State, elem types.Type, v Val) string {
 func (vc *VC) heldTerm(st *State, addr string) string {
 	h := vc.hget(st, "held", "(Array Int Bool)")
 	return "(select " + h + " " + addr + ")"
+}
+
+// strEqExt: extensional equality of two strings (same length, same bytes).
+func (vc *VC) strEqExt(a, b string) string {
+	i := vc.idxSort()
+	return "(and (= (str.len " + a + ") (str.len " + b + ")) (forall ((k " + i + ")) (=> (and " + vc.ile(vc.idx(0), "k") + " " + vc.ilt("k", "(str.len "+a+")") + ") (= (str.at " + a + " k) (str.at " + b + " k)))))"
 }
